@@ -320,8 +320,11 @@ func (conn *Conn) recv() {
 		conn.readSched.Close()
 	}
 	if conn.writeSched != nil {
+		// The write queue is not closed: callers may still be scheduling
+		// sends on it (they are refused in send, in their order), and a
+		// Close that overlaps a Schedule panics inside the scheduler. Its
+		// worker goroutine ends by itself when the queue is empty.
 		drain(conn.writeSched)
-		conn.writeSched.Close()
 	}
 	if conn.readStream != nil {
 		conn.readStream.Close()
